@@ -227,14 +227,98 @@ def by_value(t):
 
 
 # ------------------------------------------------------------------ judges
+def text_inventory(o, tree, stats):
+    """Objective-C headers and C++/CLI headers (no compiler for either here): the declarations are read back from the generated text with
+    regular expressions and compared, in order, with the marshalled names / type strings of the IDL members (which K-marshal ties to the model)."""
+    issues = []
+    def strip_comments(t):
+        t = re.sub(r'/\*.*?\*/', '', t, flags=re.S)
+        return '\n'.join(l for l in t.split('\n') if not l.strip().startswith('//'))
+    for d in o['decls']:
+        if d['anonymous'] or d['k'] not in ('Record', 'Interface', 'Enum'):
+            continue
+        oa, ca = d['attrs'].get('objc') or {}, d['attrs'].get('cppcli') or {}
+        oh, ch = v(oa.get('header')), v(ca.get('header'))
+        otext = tree.get('out/objc/' + oh) if oh else None
+        ctext = tree.get('out/cppcli/' + ch) if ch else None
+        if d['k'] == 'Enum':
+            names = [m['name'] for m in d['members']]
+            if otext is not None:
+                m_ = re.search(r'typedef NS_ENUM\(NSUInteger, (\w+)\) \{(.*?)\n\}', strip_comments(otext), re.S)
+                got = [x.strip().rstrip(',') for x in m_.group(2).split('\n') if x.strip()] if m_ else None
+                want = [v(oa.get('name')) + v(m['attrs']['objc'].get('name')) for m in d['members']] if all(v(m['attrs']['objc'].get('name')) for m in d['members']) else None
+                stats['objc_members'] += len(names)
+                if want is not None and got != want:
+                    issues.append({'kind': 'objc-enum-items', 'decl': d['name'], 'declared': names, 'expected': want, 'generated': got})
+            if ctext is not None:
+                m_ = re.search(r'public enum class (\w+) \{(.*?)\n\};', strip_comments(ctext), re.S)
+                got = [x.strip().rstrip(',') for x in m_.group(2).split('\n') if x.strip() and not x.strip().startswith('[')] if m_ else None
+                want = [v(m['attrs']['cppcli'].get('name')) for m in d['members']]
+                stats['cppcli_members'] += len(names)
+                if all(want) and got != want:
+                    issues.append({'kind': 'cppcli-enum-items', 'decl': d['name'], 'declared': names, 'expected': want, 'generated': got})
+        elif d['k'] == 'Record':
+            fields = [m for m in d['members']]
+            if otext is not None and 'objc' not in d['targets']:
+                got = []
+                for ln in strip_comments(otext).split('\n'):
+                    m_ = re.match(r'@property \(([^)]*)\) (.*?)\s*(\w+);?\s*$', ln)
+                    if m_:
+                        got.append((m_.group(2).strip(), m_.group(3)))
+                want = [(v(m['attrs']['objc'].get('type_decl')), v(m['attrs']['objc'].get('name'))) for m in fields]
+                stats['objc_members'] += len(want)
+                if all(a and b for a, b in want) and got != [(a.strip(), b) for a, b in want]:
+                    issues.append({'kind': 'objc-record-properties', 'decl': d['name'], 'declared': [m['name'] for m in fields], 'expected': want, 'generated': got})
+                # both initialisers: one  [label]:(type)name  part per field, in order
+                for ln in strip_comments(otext).split('\n'):
+                    if re.match(r'[-+] \(nonnull instancetype\)', ln) and fields:
+                        parts = re.findall(r'\)(\w+)(?= \w+:|;|$)', ln)
+                        if parts != [b for a, b in want]:
+                            issues.append({'kind': 'objc-record-initialiser', 'decl': d['name'], 'expected': [b for a, b in want], 'generated': parts, 'line': ln[:200]})
+            if ctext is not None and 'cppcli' not in d['targets']:
+                body = strip_comments(ctext)
+                got = re.findall(r'^\s*property (.*?) (\w+)\s*$', body, re.M)
+                want = [(v(m['attrs']['cppcli'].get('typename')), v(m['attrs']['cppcli'].get('property'))) for m in fields]
+                stats['cppcli_members'] += len(want)
+                if all(a and b for a, b in want) and [(a.strip(), b) for a, b in got] != [(a.strip(), b) for a, b in want]:
+                    issues.append({'kind': 'cppcli-record-properties', 'decl': d['name'], 'declared': [m['name'] for m in fields], 'expected': want, 'generated': got})
+                priv = re.findall(r'^\s*(\S.*?) _(\w+);\s*$', body.split('private:')[-1], re.M) if 'private:' in body else []
+                wantp = [(v(m['attrs']['cppcli'].get('typename')), v(m['attrs']['cppcli'].get('name'))) for m in fields]
+                if all(a and b for a, b in wantp) and [(a.strip(), b) for a, b in priv] != [(a.strip(), b) for a, b in wantp]:
+                    issues.append({'kind': 'cppcli-record-backing-fields', 'decl': d['name'], 'expected': wantp, 'generated': priv})
+        elif d['k'] == 'Interface':
+            meths = [m for m in d['members'] if m['kind'] == 'method']
+            if otext is not None:
+                got = []
+                for ln in strip_comments(otext).split('\n'):
+                    m_ = re.match(r'([-+]) \((.*?)\)(\w+)(:|;|\s|$)', ln)
+                    if m_:
+                        got.append((m_.group(1), m_.group(3)))
+                want = [('+' if m['static'] else '-', v(m['attrs']['objc'].get('name'))) for m in meths]
+                stats['objc_members'] += len(want)
+                if all(b for a, b in want) and got != want:
+                    issues.append({'kind': 'objc-interface-methods', 'decl': d['name'], 'declared': [m['name'] for m in meths], 'expected': want, 'generated': got})
+            if ctext is not None:
+                body = strip_comments(ctext).split('internal:')[0]
+                got = re.findall(r'^\s*(static|virtual) (.*?) (\w+)\((.*?)\)( abstract)?;\s*$', body, re.M)
+                want = [('static' if m['static'] else 'virtual', v(m['attrs']['cppcli'].get('typename')), v(m['attrs']['cppcli'].get('name')), len(m['params'])) for m in meths]
+                gotn = [(a, b.strip(), c, len([x for x in re.split(r',(?![^<]*>)', p_) if x.strip()]), bool(ab)) for a, b, c, p_, ab in got]
+                stats['cppcli_members'] += len(want)
+                if all(b and c for a, b, c, n in want):
+                    if [(a, b, c, n) for a, b, c, n, ab in gotn] != [(a, b.strip(), c, n) for a, b, c, n in want] or any((a == 'virtual') != ab for a, b, c, n, ab in gotn):
+                        issues.append({'kind': 'cppcli-interface-methods', 'decl': d['name'], 'declared': [m['name'] for m in meths], 'expected': want, 'generated': gotn})
+    return issues
+
+
 def judge_program(args):
     c, o, tree = args
     issues = []
-    stats = {'java_members': 0, 'cpp_asserts': 0, 'cpp_unjudgeable_decls': 0}
+    stats = {'java_members': 0, 'cpp_asserts': 0, 'cpp_unjudgeable_decls': 0, 'objc_members': 0, 'cppcli_members': 0}
+    issues += text_inventory(o, tree, stats)
     ok, err, work = jvm_judge.compile_java(tree)
     try:
         if not ok:
-            return [{'kind': 'java-does-not-compile', 'detail': err[-600:]}], stats
+            return issues + [{'kind': 'java-does-not-compile', 'detail': err[-600:]}], stats
         jp = jvm_judge.javap(work)
     finally:
         shutil.rmtree(work, ignore_errors=True)
@@ -438,7 +522,7 @@ def kident(ctx, r):
 def run(ctx):
     r = random.Random(ctx.rng.random())
     kident(ctx, r)
-    want = {'decl': ['name', 'typename', 'header'], 'field': ['name', 'type_spec', 'data_type', 'type_decl', 'typename'],
+    want = {'decl': ['name', 'typename', 'header'], 'field': ['name', 'type_spec', 'data_type', 'type_decl', 'typename', 'property'],
             'param': ['name', 'type_spec', 'data_type', 'type_decl', 'typename'],
             'method': ['name', 'type_spec', 'return_type', 'type_decl', 'typename', 'prefix_specifiers', 'postfix_specifiers'],
             'item': ['name'], 'flag': ['name'], 'code': ['name']}
@@ -467,7 +551,14 @@ def run(ctx):
     frags = [{'gen': 'cpp', 'template': 'header/record.jinja2.hpp', 'attr': 'fields', 'index': i, 'decl_class': 'Record'} for i in range(3)] + \
             [{'gen': 'java', 'template': 'record.jinja2.java', 'attr': 'fields', 'index': i, 'decl_class': 'Record'} for i in range(4)] + \
             [{'gen': 'cpp', 'template': 'header/interface.jinja2.hpp', 'attr': 'methods', 'index': 0, 'decl_class': 'Interface'},
-             {'gen': 'java', 'template': 'interface.jinja2.java', 'attr': 'methods', 'index': 0, 'decl_class': 'Interface', 'macros': ['parameters']}]
+             {'gen': 'java', 'template': 'interface.jinja2.java', 'attr': 'methods', 'index': 0, 'decl_class': 'Interface', 'macros': ['parameters']}] + \
+            [{'gen': 'objc', 'template': 'header/record.jinja2.h', 'attr': 'fields', 'index': i, 'decl_class': 'Record'} for i in range(3)] + \
+            [{'gen': 'cppcli', 'template': 'header/record.jinja2.hpp', 'attr': 'fields', 'index': i, 'decl_class': 'Record'} for i in range(3)] + \
+            [{'gen': 'objc', 'template': 'header/interface.jinja2.h', 'attr': 'methods', 'index': 0, 'decl_class': 'Interface'},
+             {'gen': 'cppcli', 'template': 'header/interface.jinja2.hpp', 'attr': 'methods', 'index': 0, 'decl_class': 'Interface'},
+             {'gen': 'java', 'template': 'enum.jinja2.java', 'attr': 'items', 'index': 0, 'decl_class': 'Enum'},
+             {'gen': 'objc', 'template': 'header/enum.jinja2.h', 'attr': 'items', 'index': 0, 'decl_class': 'Enum'},
+             {'gen': 'cppcli', 'template': 'header/enum.jinja2.hpp', 'attr': 'items', 'index': 0, 'decl_class': 'Enum'}]
     jc = [{'files': f, 'root': list(f)[0], 'options': opts, 'fragments': frags} for f in progs[:ctx.n(12, 60)]]
     mism, flat = kjinja.run(ctx, 'c02', jc)
     if flat is not None:
@@ -475,14 +566,14 @@ def run(ctx):
                      [{'fragment': flat[0]['fragment'], 'text': flat[0]['text']}] if flat else [], {'renders': len(flat)},
                      'member / constructor / initialiser / getter loops of the C++ and Java record templates rendered by Jinja on the real objects vs the TIR interpreter')
     # judges
-    gcases = [{'files': f, 'options': opts, 'ops': [['parse', list(f)[0]], ['generate', 'cpp'], ['generate', 'java']], 'keep_content': True,
+    gcases = [{'files': f, 'options': opts, 'ops': [['parse', list(f)[0]], ['generate', 'cpp'], ['generate', 'java'], ['generate', 'objc'], ['generate', 'cppcli']], 'keep_content': True,
                'include_support': True, 'timeout_s': 120} for f in progs]
     ok2, res2 = run_impl('gen_run', {'cases': gcases}, timeout=3000)
     if not ok2:
         ctx.broken.append({'kind': 'harness', 'name': 'gen_run driver', 'detail': str(res2)[-1500:]}); return
     todo = []
     stats = {'programs': len(progs), 'rejected_or_failed': 0, 'path_collision': 0, 'java_does_not_compile': 0, 'cpp_judge_does_not_compile': 0, 'judged': 0,
-             'java_members': 0, 'cpp_asserts': 0}
+             'java_members': 0, 'cpp_asserts': 0, 'objc_members': 0, 'cppcli_members': 0}
     for c, mo, go in zip(mcases, res['results'], res2['results']):
         if mo['outcome'] != 'ok' or 'steps' not in go or any(s['r'] != 'ok' for s in go['steps']):
             stats['rejected_or_failed'] += 1; continue
@@ -513,6 +604,7 @@ def run(ctx):
             continue
         stats['judged'] += 1
         stats['java_members'] += st['java_members']; stats['cpp_asserts'] += st['cpp_asserts']
+        stats['objc_members'] += st.get('objc_members', 0); stats['cppcli_members'] += st.get('cppcli_members', 0)
         for i in issues:
             if i['kind'] in ('cpp-judge-does-not-compile',):
                 continue
